@@ -636,6 +636,11 @@ class Scheduler:
 
                 job.state = state
 
+                if job.state == JobState.WAITING and job.unsatisfied == 0:
+                    # Dependencies were satisfied while the start was aborted
+                    job.state = JobState.READY
+                    job._readyEvent.set()
+
         for listener in self.listeners:
             try:
                 listener.job_state(job)
